@@ -19,6 +19,7 @@ type c15Case struct {
 	S     vScenario `json:"s"`
 	X     string    `json:"x"`
 	Flags []string  `json:"flags"` // a drawn combination of presentation flags for reg
+	Layout string   `json:"layout,omitempty"` // date format ("" = default); some contain a literal percent sign
 }
 
 // vColourMap strips escape codes and returns, per byte of the plain text, the
@@ -215,8 +216,17 @@ func c15SplitDays(out string, dates map[string]bool) [][]string {
 
 func checkC15(c c15Case, ctx *vCtx) *vFailure {
 	f := c.S.Write("c15")
+	fileArgs := func(args ...string) []string {
+		if c.Layout != "" {
+			return append([]string{"--today", vFmtDay(9, c.Layout), "--date-format", c.Layout, "-d", f.Book, "-l", f.Log}, args...)
+		}
+		return f.Args(args...)
+	}
+	if c.Layout != "" {
+		ctx.Label("date-format:" + c.Layout)
+	}
 	run := func(global []string, args ...string) string {
-		r := vRunApp(vInvocation{Args: append(append([]string{}, global...), f.Args(args...)...)})
+		r := vRunApp(vInvocation{Args: append(append([]string{}, global...), fileArgs(args...)...)})
 		ctx.Run(1)
 		if r.Failed {
 			vViolate("C15: %v %v failed on valid input: %s", global, args, r)
@@ -518,7 +528,8 @@ func c15AscDesc(asc, desc []vValName) string {
 func genC15(t *rapid.T) c15Case {
 	vLongNameOneIn = 3
 	defer func() { vLongNameOneIn = 10 }()
-	s := vGenScenario(t, vScenOpts{MinDays: 1, MaxDays: 4, MaxEntries: 5})
+	layout := []string{"", "", "", "2006/01/02 %", "%d 2006-01-02 %s", "02.01.2006"}[rapid.IntRange(0, 5).Draw(t, "layout")]
+	s := vGenScenario(t, vScenOpts{MinDays: 1, MaxDays: 4, MaxEntries: 5, DateLayout: layout, Paths: rapid.IntRange(0, 2).Draw(t, "paths") == 0, PathSegs: []string{"a", "b", "c", "dd", "e f", ".", "..", "ax"}, PathMax: 4})
 	// two recipes whose name+quantity spell the same text when written without a separator
 	// ("b1" x 25 and "b12" x 5): any cache or index keyed by such a concatenation mixes them up
 	if rapid.IntRange(0, 4).Draw(t, "concat") == 0 && len(s.Log.Recs) > 0 {
@@ -538,7 +549,7 @@ func genC15(t *rapid.T) c15Case {
 		s.Log.Recs[j].Lines = append(s.Log.Recs[j].Lines, vLine{Kind: vkEntry, Name: n2, Num: rest, L: plain})
 		s.Log.NoFinalNL = false
 	}
-	c := c15Case{S: s, X: s.Basics[rapid.IntRange(0, len(s.Basics)-1).Draw(t, "x")]}
+	c := c15Case{S: s, Layout: layout, X: s.Basics[rapid.IntRange(0, len(s.Basics)-1).Draw(t, "x")]}
 	switch rapid.IntRange(0, 2).Draw(t, "tpl") {
 	case 1:
 		c.Flags = append(c.Flags, "--internal-template-name", "left-aligned")
